@@ -138,3 +138,23 @@ func VerifDescribe(m walm.WALMessage) string {
 	}
 	return fmt.Sprintf("%T", m)
 }
+
+// VerifMsgHeight returns the consensus height a WAL message belongs to (0: none).
+func VerifMsgHeight(m walm.WALMessage) int64 {
+	switch m := m.(type) {
+	case newRoundStepInfo:
+		return m.Height
+	case timeoutInfo:
+		return m.Height
+	case msgInfo:
+		switch x := m.Msg.(type) {
+		case *ProposalMessage:
+			return x.Proposal.Height
+		case *BlockPartMessage:
+			return x.Height
+		case *VoteMessage:
+			return x.Vote.Height
+		}
+	}
+	return 0
+}
